@@ -256,6 +256,13 @@ Proof.
     destruct (g !! x) as [i|] eqn:E; [|done]. simpl. f_equal. apply Hsub. by eapply Hnofo.
 Qed.
 
+Definition txok (k : rctx) (g : circuit) : Prop := ∃ i, g !! k_tx k = Some i ∧ n_ty i = CX.
+Lemma add_node_keeps k g n t fi g' nm z : add_node (k_rsv k) g n t fi false = Ok (g', nm) → z ≠ n → z ∈ dom g → g' !! z = g !! z.
+Proof.
+  intros H Hz Hd. apply add_node_shape in H as (_ & Hx & _). destruct (Hx z Hz) as [E|(E & _)]; [done|].
+  apply elem_of_dom in Hd as [? ?]. congruence.
+Qed.
+
 (* ---- one assignment: everything the fold needs ---- *)
 Lemma c_assign_step k st lv e st' : ties k ## k_rsv k →
   c_assign k st (lv, e) = Ok st' → gst k st → ties_ok k st.1 → (list_to_set (ids_cond e) : gset string) ⊆ k_rsv k →
@@ -311,6 +318,34 @@ Proof.
   - (* undef, buffer *) intros m Hm Hml Hum. eapply add_node_undef; [exact Ha|done|]. by eapply fr2_undef.
 Qed.
 
+(* an assignment leaves the constant nodes alone *)
+Lemma c_assign_keeps k st lv e st' z : ties k ## k_rsv k →
+  c_assign k st (lv, e) = Ok st' → gst k st → (list_to_set (ids_cond e) : gset string) ⊆ k_rsv k →
+  lv ∈ k_rsv k → undef_ok st.1 lv → z ∈ ties k → st'.1 !! z = st.1 !! z.
+Proof.
+  intros Htr H G Hid Hlv Hu Hz.
+  assert (Hlvt : lv ∉ [k_t0 k; k_t1 k; k_tx k]).
+  { intros Hin. apply (Htr lv); [|done]. unfold ties. set_solver. }
+  assert (Hzl : z ≠ lv) by (intros ->; by apply (Htr lv)).
+  unfold c_assign in H; simpl in H; apply mbind_ok in H as ([st1 r] & H1 & H2); simpl in H2.
+  destruct (frg_cond _ _ _ _ _ H1) as [Hs G1]; specialize (G1 G); pose proof (fr2_cond _ _ _ _ _ H1) as F2.
+  pose proof (fr2_undef _ _ _ lv F2 Hlv Hu) as Hu1.
+  assert (Hz1 : st1.1 !! z = st.1 !! z).
+  { destruct G as (_ & Hti & _). specialize (Hti z Hz). apply elem_of_dom in Hti as [j Hj]. rewrite Hj. by eapply lookup_weaken. }
+  assert (Hzd : z ∈ dom st1.1). { destruct G1 as (_ & Hti & _). by apply Hti. }
+  unfold assignment in H2; rewrite bool_decide_eq_false_2 in H2 by done.
+  case_bool_decide as Hr.
+  - injection H2 as <-; simpl.
+    destruct (result_cond _ _ _ _ _ H1 G Hid) as [_ HB]; destruct (HB Hr) as (Hrn & t & fi & Hl & Htt & Hfi & Hrfi & Hnofo).
+    assert (Hrr : r ∉ k_rsv k) by (destruct G1 as (_ & _ & _ & Hd); intros ?; by apply (Hd r)).
+    assert (Hne : r ≠ lv) by (intros ->; done).
+    assert (Hfl : fanin st1.1 lv = ∅) by (unfold fanin; destruct (st1.1 !! lv) as [i|] eqn:E; [simpl; by destruct (Hu1 i E)|done]).
+    destruct (relabel_shape st1.1 r lv t fi Hl Hne Hrfi Hnofo Hfl) as (Slv & Sr & Sx).
+    rewrite Sx; [done|done|]. intros ->. destruct G1 as (_ & _ & Htg & _). by apply (Htg r).
+  - apply mbind_ok in H2 as ([g' nm] & Ha & E); injection E as <-; simpl.
+    rewrite <- Hz1. by eapply add_node_keeps.
+Qed.
+
 (* ------------------------------------------------------------------ the invariant of the item fold *)
 Lemma sem_driver_ext v v' x d : (∀ s, s ∈ dep_ids d → v s = v' s) → sem_driver v x d = sem_driver v' x d.
 Proof.
@@ -325,14 +360,15 @@ Definition drv_ok (k : rctx) (nd : string * driver) : Prop :=
 Record rinv (k : rctx) (P : list (string * driver)) (g : circuit) (ge : gset string) : Prop := mk_rinv {
   ri_gst : gst k (g, ge);
   ri_ties : ties_ok k g;
+  ri_tx : txok k g;
   ri_undef : ∀ n, n ∈ k_rsv k → n ∉ P.*1 → undef_ok g n;
   ri_eq : ∀ n d, (n, d) ∈ P → ∀ v, consistent g v → v n = sem_driver v (v (k_tx k)) d;
   ri_names : Forall (drv_ok k) P }.
 
-Lemma rinv_refine k P g ge g' ge' : rinv k P g ge → refines_rsv k g g' → gst k (g', ge') → ties_ok k g' →
+Lemma rinv_refine k P g ge g' ge' : rinv k P g ge → refines_rsv k g g' → gst k (g', ge') → ties_ok k g' → txok k g' →
   (∀ n, n ∈ k_rsv k → n ∉ P.*1 → undef_ok g n → undef_ok g' n) → rinv k P g' ge'.
 Proof.
-  intros [G T U E N] Hr G' T' U'. split; try done.
+  intros [G T X U E N] Hr G' T' X' U'. split; try done.
   - intros n Hn Hp. apply U'; auto.
   - intros n d Hnd v Hv. destruct (Hr v Hv) as (v1 & C1 & A1 & X1). rewrite Forall_forall in N. destruct (N _ Hnd) as [Hn Hd]. simpl in *.
     rewrite <- (A1 n Hn), <- X1. rewrite (E n d Hnd v1 C1). apply sem_driver_ext. intros s Hs. apply A1, Hd. by apply elem_of_list_to_set.
@@ -340,17 +376,17 @@ Qed.
 Lemma rinv_add k P g ge n d : rinv k P g ge → drv_ok k (n, d) →
   (∀ v, consistent g v → v n = sem_driver v (v (k_tx k)) d) → rinv k (P ++ [(n, d)]) g ge.
 Proof.
-  intros [G T U E N] Hd He. split; try done.
+  intros [G T X U E N] Hd He. split; try done.
   - intros m Hm Hp. apply U; [done|]. rewrite fmap_app in Hp. set_solver.
   - intros m d' [Hin|Hin]%elem_of_app; [by apply E|]. apply elem_of_list_singleton in Hin. injection Hin as -> ->. done.
   - apply Forall_app. split; [done|]. by constructor.
 Qed.
 
-Lemma rinv_step k P g ge g' ge' n d : rinv k P g ge → refines_rsv k g g' → gst k (g', ge') → ties_ok k g' → drv_ok k (n, d) →
+Lemma rinv_step k P g ge g' ge' n d : rinv k P g ge → refines_rsv k g g' → gst k (g', ge') → ties_ok k g' → txok k g' → drv_ok k (n, d) →
   (∀ v, consistent g' v → v n = sem_driver v (v (k_tx k)) d) →
   (∀ m, m ∈ k_rsv k → m ∉ P.*1 → m ≠ n → undef_ok g m → undef_ok g' m) → rinv k (P ++ [(n, d)]) g' ge'.
 Proof.
-  intros [G T U E N] Hr G' T' Hd He U'. split; try done.
+  intros [G T X U E N] Hr G' T' X' Hd He U'. split; try done.
   - intros m Hm Hp. rewrite fmap_app in Hp. apply U'; [done|set_solver|set_solver|]. apply U; [done|set_solver].
   - intros m d' [Hin|Hin]%elem_of_app.
     + intros v Hv. destruct (Hr v Hv) as (v1 & C1 & A1 & X1). rewrite Forall_forall in N. destruct (N _ Hin) as [Hn Hdd]. simpl in *.
@@ -370,12 +406,15 @@ Section fold.
     induction l as [|[lv e] l IH]; intros st st' P H Hi Hok Hnd; simpl in H.
     - injection H as <-. simpl. by rewrite app_nil_r.
     - apply rbind_ok in H as (st1 & H1 & H2). inversion Hok as [|? ? [Hlv Hide] Hok']; subst. simpl in *.
-      pose proof Hi as [G T U E N].
+      pose proof Hi as [G T X U E N].
       assert (Hnp : lv ∉ P.*1). { apply NoDup_app in Hnd as (_ & Hd & _). intros Hin. apply (Hd lv Hin). by left. }
       assert (Gst : gst k st) by (by destruct st).
       destruct (c_assign_step k st lv e st1 Htr H1 Gst T Hide Hlv (U lv Hlv Hnp)) as (G1 & T1 & U1 & R1 & E1).
+      assert (X1 : txok k st1.1).
+      { destruct X as (i & Hx & Hc). exists i. split; [|done]. rewrite <- Hx.
+        eapply (c_assign_keeps k st lv e st1); try done; [by apply U|unfold ties; set_solver]. }
       assert (Hi1 : rinv k (P ++ [(lv, DAssign e)]) st1.1 st1.2).
-      { eapply rinv_step; [exact Hi|exact R1|by destruct st1|done|done|exact E1|]. intros m Hm Hp Hne Hu. by apply U1. }
+      { eapply rinv_step; [exact Hi|exact R1|by destruct st1|done|exact X1|done|exact E1|]. intros m Hm Hp Hne Hu. by apply U1. }
       specialize (IH st1 st' _ H2 Hi1 Hok'). rewrite <- app_assoc in IH. apply IH.
       rewrite fmap_app. simpl. rewrite <- app_assoc. simpl.
       apply NoDup_app in Hnd as (N1 & N2 & N3). apply NoDup_cons in N3 as [N3 N4].
@@ -389,12 +428,15 @@ Section fold.
   Proof.
     induction ns as [|n ns IH]; intros g g' ge P H Hi Hns; simpl in H; [by injection H as <-|].
     apply rbind_ok in H as (g1 & H1 & H2). apply mbind_ok in H1 as ([g1' nm] & H1 & E). injection E as <-. simpl in *.
-    destruct (Hns n) as [Hn Hnp]; [by left|]. pose proof Hi as [G T U Eq N].
+    destruct (Hns n) as [Hn Hnp]; [by left|]. pose proof Hi as [G T X U Eq N].
     eapply IH; [exact H2| |intros; apply Hns; by right].
-    eapply rinv_refine; [exact Hi| | | |].
+    eapply rinv_refine; [exact Hi| | | | |].
     - apply refines_same. intros v. eapply add_node_consistent; [exact H1|]. by apply U.
     - by eapply add_node_gst.
     - by eapply add_node_ties.
+    - destruct X as (i & Hx & Hc). exists i. split; [|done]. rewrite <- Hx. eapply add_node_keeps; [exact H1| |].
+      + intros <-. apply (Htr (k_tx k)); [unfold ties; set_solver|done].
+      + apply elem_of_dom. eauto.
     - intros m Hm Hp Hu. destruct (decide (m = n)) as [->|Hne].
       + apply add_node_shape in H1 as (Hl & _). intros i Hi'. rewrite Hl in Hi'. injection Hi' as <-. simpl. split; [|done].
         assert (fanin g n = ∅) as ->; [|set_solver]. unfold fanin. destruct (g !! n) as [j|] eqn:Ej; [|done]. simpl. by destruct (Hu j Ej).
@@ -485,14 +527,18 @@ Section fold.
       apply mbind_ok in H1 as ([g1x nm'] & Ha & E). injection E as E. simpl in E. subst g1x. simpl in *.
       assert (Hdr : prim_drv t ic = [(n, DPrim t ins)]). { unfold prim_drv. by rewrite E1. }
       cbn [mbind list_bind] in Hnd |- *. fold (mbind (M:=list) (prim_drv t)) in Hnd |- *. rewrite Hdr in Hnd |- *.
-      pose proof Hi as [G T U Eq N]. destruct Hdrv as [Hn Hids].
+      pose proof Hi as [G T X U Eq N]. destruct Hdrv as [Hn Hids].
       assert (Hnp : n ∉ P.*1). { apply NoDup_app in Hnd as (_ & Hd & _). intros Hin. apply (Hd n Hin). simpl. by left. }
       pose proof (U n Hn Hnp) as Hun.
       assert (Hcons : ∀ v, consistent g1 v → consistent g v) by (intros v; by eapply add_node_consistent).
       assert (Hrs : rs ≠ []). { intros ->. inversion Fo; subst. done. }
       pose proof (prim_sel_ne t rs Hrs) as Hfi.
+      assert (X1 : txok k g1).
+      { destruct X as (i & Hx & Hc). exists i. split; [|done]. rewrite <- Hx. eapply add_node_keeps; [exact Ha| |].
+        - intros <-. apply (Htr (k_tx k)); [unfold ties; set_solver|done].
+        - apply elem_of_dom. eauto. }
       assert (Hi1 : rinv k (P ++ [(n, DPrim t ins)]) g1 ge).
-      { eapply rinv_step; [exact Hi|by apply refines_same|by eapply add_node_gst|by eapply add_node_ties|by split| |].
+      { eapply rinv_step; [exact Hi|by apply refines_same|by eapply add_node_gst|by eapply add_node_ties|exact X1|by split| |].
         - intros v Hv. pose proof Ha as Hsh. apply add_node_shape in Hsh as (Hl & _).
           assert (fanin g n = ∅) as Hf0. { unfold fanin. destruct (g !! n) as [j|] eqn:Ej; [|done]. simpl. by destruct (Hun j Ej). }
           rewrite Hf0 in Hl.
@@ -553,12 +599,13 @@ Section items.
       { eapply Forall_impl; [exact HG|]. intros ic (n & ins & E & _). eauto. }
       assert (Hpos' : Forall (λ ic : string * conns, ∃ ps, ic.2 = Positional ps) insts).
       { eapply Forall_impl; [exact Hpos|]. intros ic (n & ins & E). eauto. }
-      pose proof Hi as [G T U Eq N].
+      pose proof Hi as [G T X U Eq N].
       destruct (insts_compile_prim k insts _ _ _ H1 T Hpos) as [Ss Fc]. simpl in *.
       destruct (insts_frame_pos (frg k) (frg_refl k) (frg_trans k) (frg_list k) _ _ _ _ H1 Hpos') as [_ Gc]. specialize (Gc G).
       pose proof (insts_frame_pos (fr2 k) (fr2_refl k) (fr2_trans k) (fr2_list k) _ _ _ _ H1 Hpos') as F2.
       assert (Hic : rinv k P stc.1 stc.2).
-      { eapply rinv_refine; [exact Hi|by apply refines_sub|by destruct stc|by eapply ties_mono|].
+      { eapply rinv_refine; [exact Hi|by apply refines_sub|by destruct stc|by eapply ties_mono| |].
+        { destruct X as (i & Hx & Hc). exists i. split; [|done]. by eapply lookup_weaken. }
         intros n Hn Hp Hu. by eapply (fr2_undef k (r_g st, r_ge st) stc). }
       assert (Hd : insts ≫= inst_drivers mn = insts ≫= prim_drv t).
       { clear -Ep. induction insts as [|ic insts IH]; [done|]. cbn. rewrite IH. by rewrite (prim_drv_eq mn t ic Ep). }
